@@ -211,6 +211,11 @@ class RefEval:
         raise AssertionError(k)
 
     def call(self, name, fn, args):
+        if fn is self.library.get('systemPartial') and len(args) >= 2 and callable(args[0]):
+            # independent model of partial application: the bound arguments come first, in binding order (also for a partial of a
+            # partial), every call gets its own argument list
+            inner, bound = args[0], list(args[1:])
+            return lambda more, options, inner=inner, bound=bound: inner(list(bound) + list(more), options)
         try:
             return fn(args, self.options)
         except self.propagate:
